@@ -10,17 +10,18 @@
     overlap / containment / distance (line and ring, single- and multi-part, incl. origin-spanning)
     connect on a linear record (exact hull, argument order, idempotence, strand rule)
     connect of two single-part locations on a ring (covers, well-formed, ≤ hull, shortest arc when < half)
-    offset of a single-part location on a ring (rotation of the same bases, length, strand)
+    offset of a single-part location and of an origin-spanning span on a ring (rotation of the same bases)
     extension of a single-part location on a linear and on a circular record (exactly the bases within the distance)
     the feature ordering is a strict weak order
   Carried by the exhaustive small-scope correspondence + executable set-of-bases spec only
   (see DESIGN.md): connect on a ring for more than two or for origin-spanning inputs (cover / well-formed /
-  shortest arc), extension and offset of multi-part (incl. origin-spanning) locations.
+  shortest arc), extension of multi-part locations, offset of multi-exon gene locations.
 -/
 import ASV.Proofs.LocOrder
 import ASV.Proofs.LocString
 import ASV.Proofs.LocExtend
 import ASV.Proofs.LocConnectRing
+import ASV.Proofs.LocOffsetArea
 namespace ASV.C04
 open ASV
 
@@ -143,6 +144,14 @@ theorem offset_rotates_simple (p : Part) (k L : Int) (hL : 0 < L) (h0 : 0 ≤ p.
       (∀ i, r.mem i = true ↔ (0 ≤ i ∧ i < L ∧ ∃ j, p.mem j = true ∧ RotOf L k i j)) ∧
       r.len = p.len ∧ r.strand = p.strand :=
   offset_simple_ring p k L hL h0 h1 h2
+
+/-- the same for an origin-spanning span `[x, L) + [0, y)` (the shape of every origin-spanning
+    area): shifting rotates exactly its bases; the result is again one arc — one part, or two parts
+    meeting at the origin -/
+theorem offset_rotates_origin_spanning (x y L k : Int) (s : Strand) (hL : 0 < L) (hy0 : 0 < y) (hyx : y ≤ x) (hxL : x < L) :
+    ∃ r, offsetLocation (areaTwo x y L s) k L = .ok r ∧
+      ∀ i, r.mem i = true ↔ (0 ≤ i ∧ i < L ∧ ∃ j, (areaTwo x y L s).mem j = true ∧ RotOf L k i j) :=
+  ⟨_, offset_area_eq x y L k s hL hy0 hyx hxL, offAreaTwo_mem x y L k s hL hy0 hyx hxL⟩
 
 /-! ### extending (linear record) -/
 
